@@ -44,7 +44,14 @@ type fileState struct {
 	dir     bool
 	version int
 	broken  bool
+	link    bool // the directory entry is a symlink to a file outside the directory
+	away    bool // ... whose target is currently missing (the entry itself is untouched)
 }
+
+func isLink(name string) bool { return strings.HasSuffix(name, "L.mtail") }
+
+// target is where the contents of a symlinked program live.
+func (w *world) target(name string) string { return filepath.Join(w.dir+"_targets", name+".src") }
 
 type world struct {
 	dir     string
@@ -67,6 +74,16 @@ func (w *world) write(name string, broken bool) {
 		return
 	}
 	w.nextVer++
+	if isLink(name) {
+		_ = os.MkdirAll(filepath.Dir(w.target(name)), 0o755)
+		_ = os.Remove(w.target(name) + ".away")
+		_ = os.WriteFile(w.target(name), []byte(source(w.nextVer, broken)), 0o644)
+		if _, err := os.Lstat(filepath.Join(w.dir, name)); err != nil {
+			_ = os.Symlink(w.target(name), filepath.Join(w.dir, name))
+		}
+		w.files[name] = &fileState{version: w.nextVer, broken: broken, link: true}
+		return
+	}
 	w.files[name] = &fileState{version: w.nextVer, broken: broken}
 	_ = os.WriteFile(filepath.Join(w.dir, name), []byte(source(w.nextVer, broken)), 0o644)
 }
@@ -79,8 +96,19 @@ func (w *world) apply(s step) {
 		w.write(s.File, false)
 	case "break":
 		w.write(s.File, true)
+	case "target-away":
+		// the program's file cannot be opened any more; its directory entry stays
+		if exists && f.link && !f.away {
+			_ = os.Rename(w.target(s.File), w.target(s.File)+".away")
+			f.away = true
+		}
+	case "target-back":
+		if exists && f.link && f.away {
+			_ = os.Rename(w.target(s.File)+".away", w.target(s.File))
+			f.away = false
+		}
 	case "touch-identical":
-		if exists && !f.dir {
+		if exists && !f.dir && !f.away {
 			_ = os.WriteFile(p, []byte(source(f.version, f.broken)), 0o644)
 		}
 	case "remove":
@@ -115,6 +143,10 @@ func (w *world) scan() {
 			continue
 		}
 		present[n] = true
+		if f.away {
+			w.loadErrs[n]++ // cannot be read: an error, and whatever runs keeps running
+			continue
+		}
 		if v, ok := w.running[n]; ok && v == f.version {
 			continue // identical contents: nothing happens
 		}
@@ -172,10 +204,20 @@ func alphabet(files []string) []step {
 	return out
 }
 
+// linkAlphabet: a program that is a symlink to a file elsewhere, which can
+// become unreadable (target moved away) without its directory entry changing.
+func linkAlphabet() []step {
+	var out []step
+	for _, op := range []string{"add", "edit", "break", "remove", "target-away", "target-back", "touch-identical"} {
+		out = append(out, step{Op: op, File: "L.mtail"})
+	}
+	return append(out, step{Op: "edit", File: "A.mtail"}, step{Op: "remove", File: "A.mtail"}, step{Op: "rescan"})
+}
+
 func TestC26(t *testing.T) {
 	r := ev.Start(t, "C26", "exploration")
 	defer r.Finish()
-	r.Rule("program directory with up to 3 program files, a dot-file holding a valid program, a README holding a valid program, and a sub-directory holding programs; histories over {add, edit, touch-identical, break, remove, replace-by-dir} x files + renames to an eligible / ineligible / hidden name and back + rescan; every history of length <=2 (quick) / <=3 (thorough) over 2 files exhaustively, plus random length-12 histories over 3 files. After each step + LoadAllPrograms a numbered probe line is pushed (two barrier lines make its processing complete); the (program, VM) pairs that processed it, the per-version marker gauge, the probe counters and prog_loads/unloads/load_errors_total are compared with the model. Non-trivial: history in which the running set or a running version changed at least twice; distinct by history.")
+	r.Rule("program directory with up to 3 program files, a dot-file holding a valid program, a README holding a valid program, and a sub-directory holding programs; histories over {add, edit, touch-identical, break, remove, replace-by-dir} x files + renames to an eligible / ineligible / hidden name and back + rescan, and over a program that is a symlink to a file outside the directory {add, edit, break, remove, target moved away (entry present but unreadable), target back}; every history of length <=2 (quick) / <=3 (thorough) over 2 files exhaustively, plus random length-12 histories over 3 files. After each step + LoadAllPrograms a numbered probe line is pushed (two barrier lines make its processing complete); the (program, VM) pairs that processed it, the per-version marker gauge, the probe counters and prog_loads/unloads/load_errors_total are compared with the model. Non-trivial: history in which the running set or a running version changed at least twice; distinct by history.")
 	r.Assume("programs of different names use the same metric names with the same kinds (no kind clash: that interaction is C06's)")
 	lh := func(id uint64, name string, l *logline.LogLine, phase int) {
 		if phase != 0 {
@@ -212,11 +254,14 @@ func TestC26(t *testing.T) {
 	}
 	// names are made unique per history below; here symbolic A/B/C
 	rec(nil, alphabet([]string{"A.mtail", "B.mtail"}))
+	maxLen = ev.Pick(3, 4)
+	rec(nil, linkAlphabet())
 	nExh := len(histories)
 	rng := ev.NewRNG(ev.Seed(), "c26")
 	for i := 0; i < ev.Pick(150, 6000); i++ {
 		g := rng.Sub(i)
 		alpha := append(alphabet([]string{"A.mtail", "B.mtail"}), alphabet([]string{"C.mtail", "A.mtail"})...)
+		alpha = append(alpha, linkAlphabet()...)
 		var h []step
 		for k := 0; k < 12; k++ {
 			h = append(h, ev.PickOne(g, alpha))
